@@ -253,6 +253,8 @@ pub enum GuardK {
     NotBad,
     /// list must have at most two elements
     Len2,
+    /// a pair (or longer tuple) of numbers must be in non-decreasing order
+    Ordered,
 }
 #[derive(Clone, Copy, Debug, PartialEq, Eq, Hash, Serialize, Deserialize)]
 pub enum ParseK {
@@ -283,6 +285,7 @@ pub enum ShellK {
 pub const GUARD_MSG_LT10: &str = "must be below 10";
 pub const GUARD_MSG_NOTBAD: &str = "value is bad";
 pub const GUARD_MSG_LEN2: &str = "at most two";
+pub const GUARD_MSG_ORDERED: &str = "min must not exceed max";
 pub const SOME_MSG: &str = "need at least one";
 
 #[derive(Clone, Debug, PartialEq, Eq, Hash, Serialize, Deserialize)]
@@ -473,6 +476,16 @@ fn guard_fn(k: GuardK) -> (fn(&Val) -> bool, &'static str) {
         GuardK::Lt10 => (|v| !matches!(v, Val::N(n) if *n >= 10), GUARD_MSG_LT10),
         GuardK::NotBad => (|v| !matches!(v, Val::S(t) if t.0 == b"bad"), GUARD_MSG_NOTBAD),
         GuardK::Len2 => (|v| !matches!(v, Val::L(l) if l.len() > 2), GUARD_MSG_LEN2),
+        GuardK::Ordered => (
+            |v| match v {
+                Val::T(xs) => {
+                    let ns: Vec<u64> = xs.iter().filter_map(|x| if let Val::N(n) = x { Some(*n) } else { None }).collect();
+                    ns.windows(2).all(|w| w[0] <= w[1])
+                }
+                _ => true,
+            },
+            GUARD_MSG_ORDERED,
+        ),
     }
 }
 
